@@ -49,6 +49,12 @@ func (le layoutEvents) feasibleWith(assign map[string]int64, bools map[string]bo
 }
 
 func extractEvents(c *Ctx, fn *ssa.Function, widths map[string]int) ([]layoutEvents, string) {
+	return extractEventsWith(c, fn, widths, nil)
+}
+
+// extractEventsWith is extractEvents under an assumption on the entry state
+// (setup may constrain the parameters' symbols).
+func extractEventsWith(c *Ctx, fn *ssa.Function, widths map[string]int, setup func(e *lfEngine, fr *lfFrame, st *lfState)) ([]layoutEvents, string) {
 	e := newLenflow(c, 6)
 	e.bits = true
 	e.elemLoads = map[Sym]lfElemRef{}
@@ -109,7 +115,11 @@ func extractEvents(c *Ctx, fn *ssa.Function, widths map[string]int) ([]layoutEve
 		}
 		out = append(out, le)
 	}
-	e.runEntry(fn, nil)
+	if setup != nil {
+		e.runEntry(fn, func(fr *lfFrame, st *lfState) { setup(e, fr, st) })
+	} else {
+		e.runEntry(fn, nil)
+	}
 	if e.budgetHit {
 		return out, "budget exhausted"
 	}
@@ -171,7 +181,7 @@ func cmdLayout(args []string) int {
 			}
 		}
 		for _, ev := range le.Events {
-			if ev.Kind == "cmp" || ev.Kind == "hash" || strings.HasPrefix(ev.Kind, "loop:") {
+			if ev.Kind == "cmp" || ev.Kind == "hash" || ev.Kind == "stale" || strings.HasPrefix(ev.Kind, "loop:") {
 				extra := ""
 				if ev.Loop != nil {
 					extra = fmt.Sprintf("  guard=%v", ev.Loop.Guard)
